@@ -425,6 +425,29 @@ def lopsided(rng, z, every=8):
     return (z.real + 1j * z.imag * f) if rng.integers(2) else (z.real * f + 1j * z.imag)
 
 
+def degenerate_rows(rng, a, every=5):
+    """with probability 1/every, a degenerate but valid variant of a record: for (2, n) data one polarisation exactly zero, both
+    polarisations identical, or one the negative of the other; for any data everything zero or a constant. Anything that infers
+    "no noise" / "same in both polarisations" from part of a record and applies it to the rest shows up here."""
+    a = np.array(a)
+    if rng.integers(every) != 0 or a.size == 0:
+        return a
+    k = int(rng.integers(6))
+    if a.ndim == 2 and a.shape[0] == 2 and k < 4:
+        r = int(rng.integers(2))
+        if k == 0 or k == 1:
+            a[r] = 0
+        elif k == 2:
+            a[r] = a[1 - r]
+        else:
+            a[r] = -a[1 - r]
+        return a
+    if k == 4:
+        return np.zeros_like(a)
+    a[...] = a.flat[0]
+    return a
+
+
 LONG_SCALE = [1]     # run_shard sets 8 for the thorough tier (same number of long records as quick x 10, not x 100)
 
 
@@ -500,6 +523,9 @@ def hostile_rng(g):
             setattr(npr, k, f)
 
 
+ROUND_LENGTHS = (500, 1000, 1024, 2000, 4096, 5000, 8192, 10000, 16384, 32768, 50000, 65536, 100000, 131072)
+
+
 def long_or(rng, i, n, longs=(32769, 50000, 70001, 131075), every=16, phase=7, huge=True):
     """record-length helper: every `every`-th case of a workload replaces the drawn length by one beyond the usual internal
     block sizes (2**15, 2**16, 2**17; not multiples of them), so that chunked / narrow-index code paths are reached."""
@@ -508,6 +534,8 @@ def long_or(rng, i, n, longs=(32769, 50000, 70001, 131075), every=16, phase=7, h
     every = every * LONG_SCALE[0]
     if i % every == phase:
         return int(longs[int(rng.integers(len(longs)))])
+    if i % every == (phase + every // 2) % every and max(longs) >= 32769:
+        return int(ROUND_LENGTHS[int(rng.integers(len(ROUND_LENGTHS)))])      # ... and exact multiples of them (an empty last block)
     return n
 
 
